@@ -18,6 +18,12 @@ def P(props, label, text):
     return Clause(label, text, 'P', props)
 
 
+def G(label, text):
+    """ghost definition: fixes the value of a ghost predicate on the *fresh* result of the function.  It is assumed when
+    the body is verified and at call sites (a definitional extension; sound because the result did not exist before)"""
+    return Clause(label, text, 'G')
+
+
 def A(label, text):
     """auxiliary clause (scaffolding: invariants, callee preconditions, bookkeeping)"""
     return Clause(label, text, 'A')
